@@ -37,6 +37,7 @@ import (
 	"context"
 	"errors"
 	"fmt"
+	"github.com/cloudwego/dynamicgo/thrift/generic"
 	"io"
 	stdhttp "net/http"
 	"net/url"
@@ -640,6 +641,31 @@ var msgHeaderCall = func(name string) []byte {
 	return b
 }
 
+// c17HTTPConv is the world's long-lived http converter (header and footer of the message are built once, at its
+// construction, and shared by every later conversion); c17Churn runs another user of the library's pooled write buffers
+// between two conversions.
+var (
+	c17HC       *j2t.HTTPConv
+	c17HCFn     *thrift.FunctionDescriptor
+	c17LastBody []byte
+)
+
+func c17HTTPConv(w *W, fn *thrift.FunctionDescriptor) *j2t.HTTPConv {
+	if c17HC == nil || c17HCFn != fn {
+		c17HC, c17HCFn = j2t.NewHTTPConv(meta.EncodingThriftBinary, fn), fn
+		return c17HC
+	}
+	if len(c17LastBody) > 0 && w.T.Chance(1, 2, "httpconv.churn") {
+		// a struct DOM marshalled in between: its first write into the pooled buffer is one byte
+		pn := generic.PathNode{Node: generic.NewNode(thrift.STRUCT, c17LastBody)}
+		if pn.Load(true, &generic.Options{}) == nil {
+			pn.Marshal(&generic.Options{})
+		}
+		w.Count("httpconv_reused_after_dom_marshal")
+	}
+	return c17HC
+}
+
 // runC17Env performs one conversion of the request under env.
 func runC17Env(w *W, sch *hSchema, desc *thrift.TypeDescriptor, fn *thrift.FunctionDescriptor, r *hRequest, opts conv.Options, env c17Env, expLen int) (res c17Outcome) {
 	knobs.FieldCap, knobs.KeyCap, knobs.ReqsCap = env.FieldCap, env.KeyCap, env.ReqsCap
@@ -679,14 +705,14 @@ func runC17Env(w *W, sch *hSchema, desc *thrift.TypeDescriptor, fn *thrift.Funct
 		if env.MappingOptOff {
 			opts.EnableHttpMapping = false
 		}
-		hc := j2t.NewHTTPConv(meta.EncodingThriftBinary, fn)
+		hc := c17HTTPConv(w, fn)
 		out, err := hc.Do(ctx, req, opts)
 		res.Out, res.Err = out, err
 	case apiHTTPDoInto:
 		if env.MappingOptOff {
 			opts.EnableHttpMapping = false
 		}
-		hc := j2t.NewHTTPConv(meta.EncodingThriftBinary, fn)
+		hc := c17HTTPConv(w, fn)
 		je := env.J2T
 		c := je.Prefix
 		if je.Delta >= 0 {
@@ -722,6 +748,7 @@ func runC17Env(w *W, sch *hSchema, desc *thrift.TypeDescriptor, fn *thrift.Funct
 			w.Failf("bad-envelope", res.Facts, "HTTPConv output does not start with the CALL header / end with the argument struct's STOP (env %s): %x", env, clipb(res.Out, 200))
 		}
 		res.Out = res.Out[len(h) : len(res.Out)-1]
+		c17LastBody = append(c17LastBody[:0], res.Out...)
 	}
 	return res
 }
@@ -768,6 +795,7 @@ func resetC17Globals() {
 }
 
 func runC17(w *W) {
+	c17HC, c17HCFn, c17LastBody = nil, nil, nil // per world
 	t := w.T
 	resetC17Globals()
 	defer resetC17Globals()
